@@ -1,0 +1,73 @@
+//go:build verif
+
+package btcdiff
+
+import (
+	"context"
+	"errors"
+
+	"github.com/keep-network/keep-core/pkg/bitcoin"
+)
+
+// The functions below expose the unexported entry points of the Bitcoin
+// difficulty maintainer to the out-of-tree verification harness (property
+// C43). They have no behaviour of their own.
+
+func verifMaintainer(
+	config Config,
+	btcChain bitcoin.Chain,
+	chain Chain,
+) *bitcoinDifficultyMaintainer {
+	return &bitcoinDifficultyMaintainer{
+		config:   config,
+		btcChain: btcChain,
+		chain:    chain,
+	}
+}
+
+// VerifStartControlLoop runs startControlLoop in the calling goroutine.
+func VerifStartControlLoop(
+	ctx context.Context,
+	config Config,
+	btcChain bitcoin.Chain,
+	chain Chain,
+) {
+	verifMaintainer(config, btcChain, chain).startControlLoop(ctx)
+}
+
+// VerifProveEpochs runs proveEpochs.
+func VerifProveEpochs(
+	ctx context.Context,
+	config Config,
+	btcChain bitcoin.Chain,
+	chain Chain,
+) error {
+	return verifMaintainer(config, btcChain, chain).proveEpochs(ctx)
+}
+
+// VerifProveNextEpoch runs proveNextEpoch.
+func VerifProveNextEpoch(
+	ctx context.Context,
+	config Config,
+	btcChain bitcoin.Chain,
+	chain Chain,
+) (bool, error) {
+	return verifMaintainer(config, btcChain, chain).proveNextEpoch(ctx)
+}
+
+// VerifVerifySubmissionEligibility runs verifySubmissionEligibility.
+func VerifVerifySubmissionEligibility(
+	config Config,
+	btcChain bitcoin.Chain,
+	chain Chain,
+) error {
+	return verifMaintainer(config, btcChain, chain).verifySubmissionEligibility()
+}
+
+// VerifIsNoGenesis tells whether err is (or wraps) errNoGenesis.
+func VerifIsNoGenesis(err error) bool { return errors.Is(err, errNoGenesis) }
+
+// VerifIsNotAuthorized tells whether err is (or wraps) errNotAuthorized.
+func VerifIsNotAuthorized(err error) bool {
+	return errors.Is(err, errNotAuthorized)
+}
